@@ -7,7 +7,6 @@ from props import c01
 
 ID = "C18"
 PROP_FILE = "Props/C18.v"
-THEOREMS = ["C18_custom_err", "C18_not_called_on_match", "C18_standard", "C18_err_type", "C18_nonvacuous"]
 RULE = ("definitions: C01-style enums WITHOUT a default variant, half with parse_err_ty + parse_err_fn (a function or a module "
         "path; attributes in either order, in one or two #[strum] attributes), half without; case-sensitive and insensitive "
         "variants. The harness's parse_err_fn logs every call: for every rejected input the log must be exactly [input] (bytes "
